@@ -39,6 +39,9 @@ DOCS = [
     [{"a": [], "id": 1}, {"a": {}, "id": 2}, {"a": "", "id": 3}, {"a": 0, "id": 4}, {"a": False, "id": 5}, {"a": None, "id": 6}, {"b": 1, "id": 7}, {"a": [[]], "b": []}],
     [],
     {},
+    # null-valued members and elements at every kind of location (a null is a value, not an absence)
+    {"0": None, "1": None, "2": [None, {"0": None}], "a": None, "": None, "n": {"0": None, "a": None, "b": [None]}},
+    [None, [None], {"0": None, "a": None}, None],
 ]
 CONTEXTS = [{}, {"x": {"y": 1}, "flag": True, "v": 2, "list": [1, 2]}, {"x": 1, "flag": 0}]
 
